@@ -106,7 +106,7 @@ def extract():
     info["unary"] = un
     # algorithms tied by shape
     sh = {}
-    for rel, name in ((SE, "static_eval_rq_operator"), (SE, "static_eval_case"), (SE, "maybe_static_eval")):
+    for rel, name in ((SE, "static_eval_rq_operator"), (SE, "static_eval_case"), (SE, "maybe_static_eval"), (SE, "is_temporal")):
         sh[name] = hashlib.sha1(fn_text(rel, name).encode()).hexdigest()
     trs = read(TR)
     mt = mask(trs)
@@ -126,9 +126,10 @@ def extract():
 
 # the shapes the hand-written models in Model/StaticEval.v were written against
 EXPECTED = {
-    "static_eval_rq_operator": "8cabe0013c92efdcb4d61c1b64dcd9b461134f1e",
+    "static_eval_rq_operator": "b8659d14dbc9c2282a0aef3673f9d75a9b28e024",
     "static_eval_case": "064f0ff64a52050e0b460ee52b2d182231356856",
     "maybe_static_eval": "2fd1ac5c225a8e2597a05cf0625b0dc05934ffaf",
+    "is_temporal": "7c715063ddba4cdef69036463f130cd473c6a43b",   # date/time literals are never folded (outside the value model)
     "in": "79c6235af378c429a666dbc3afb2245d82e9a4d6",
     "normalizer": "fae9f35249ad32c51815e853df76d3f2ae7d29e9",
 }
